@@ -45,17 +45,17 @@ theorem getitem_step (x : COO Int) (d : Dense) (idx : List BIx) (hg : Good x) (h
     Sim x.NoFill (Expr.mGetitem x idx) (Expr.sGetitem d idx) := by
   unfold Expr.mGetitem Expr.sGetitem
   rw [← hr.shape]
-  by_cases hz : idx.any BIx.zeroStep = true
-  · rw [if_pos hz, if_pos hz]; exact Sim.err _
-  · rw [if_neg hz, if_neg hz]
-    have hz' : idx.any BIx.zeroStep = false := by simpa using hz
-    have hb := basic_of_noZeroStep idx hz'
-    unfold COO.getitem
-    rw [noEllipsis_basic]
-    cases hn : normalizeIndex (idx.map BIx.toIxE) x.shape with
-    | error e => exact Sim.err e
-    | ok n =>
-      simp only [bind, Except.bind, pure, Except.pure]
+  unfold COO.getitem
+  rw [noEllipsis_basic]
+  cases hn : normalizeIndex (idx.map BIx.toIxE) x.shape with
+  | error e => exact Sim.err e
+  | ok n =>
+    simp only [bind, Except.bind, pure, Except.pure]
+    by_cases hz : idx.any BIx.zeroStep = true
+    · rw [if_pos hz, if_pos hz]; exact Sim.err _
+    · rw [if_neg hz, if_neg hz]
+      have hz' : idx.any BIx.zeroStep = false := by simpa using hz
+      have hb := basic_of_noZeroStep idx hz'
       have hv : ValidIdx n x.shape := C02.normalize_index_valid _ _ n hb hn
       have hinv : ∀ e ∈ x.entries, ∀ j', outOf 0 n e.1 false = some j' → compose n j' = e.1 :=
         fun e he j' hj' => (outOf_compose 0 false n x.shape e.1 j' hv (hg.wf e he) hj').1
